@@ -514,6 +514,8 @@ class Interp:
         elif k == "unknown" and cur[1]:
             self.ctx.oblige("raw-deref-write", False, inst, span, "write through a raw pointer the engine cannot resolve")
         # valcell / elem / arrelem: contents are not tracked
+        if k != "key":
+            st.ghost.pop(("pristine",), None)       # memory other than a tracked cell has been written on this path
 
     # -- raw memory -------------------------------------------------------------
     def region_cap(self, st, region):
@@ -548,6 +550,8 @@ class Interp:
         else:
             detail = "untracked region %s" % (region[0],)
         self.ctx.oblige("raw-write-in-capacity" if write else "raw-read-in-capacity", ok, inst, span, detail)
+        if write:
+            st.ghost.pop(("pristine",), None)
         ik = self.buf_init_key(region)
         if ik is not None:
             init = st.env.get(ik)
@@ -1333,6 +1337,7 @@ class Interp:
             self.raw_access(st, inst, span, ("bufelem", dd[1], dd[2], True), write=True, count=cnt)
         else:
             self.ctx.oblige("raw-write-in-capacity", False, inst, span, "copy to an untracked destination")
+            st.ghost.pop(("pristine",), None)
         if ds and ds[0] == "buf":
             if ds[1][0] == "loc":
                 self.raw_access(st, inst, span, ("bufelem", ds[1], ds[2], True), write=False, count=cnt)
